@@ -328,13 +328,13 @@ func RunC12(tier string, args []string) int {
 	}
 	sort.Strings(ps)
 	cov := fw.Coverage{
-		"evaluations":         len(jobs),
-		"distinct_nontrivial": nontrivial,
-		"rule":                "one evaluation per (history, crash point); crash points are all effect points of the history; non-trivial = the restarted validator treats the location as loaded (so the on-disk data is actually consulted)",
+		"evaluations":              len(jobs),
+		"distinct_nontrivial":      nontrivial,
+		"rule":                     "one evaluation per (history, crash point); crash points are all effect points of the history; non-trivial = the restarted validator treats the location as loaded (so the on-disk data is actually consulted)",
 		"crash_points_per_history": ps,
-		"distinct_outcomes":   outcomes.Counts(),
-		"samples":             samples,
-		"exhaustive":          true,
+		"distinct_outcomes":        outcomes.Counts(),
+		"samples":                  samples,
+		"exhaustive":               true,
 	}
 	return chk.Finish(cov)
 }
